@@ -75,7 +75,7 @@ func (s *vSys) send(r vReq) int {
 	if r.DB != "" {
 		hr.Header.Set("x-arc-database", r.DB)
 	}
-	resp, err := s.app.Test(hr, 10000)
+	resp, err := s.app.Test(hr, -1) // no wall-clock deadline: a 65536-row request on a loaded box takes what it takes
 	if err != nil {
 		return -1
 	}
